@@ -368,10 +368,13 @@ def run(cx, rep):
     if not befile:
         rep.anchor_missing("C09.1", "functions of swc_tools/bind_exports.rs")
     ue_all, so_all = [], []
+    be_derivs = {}       # gid -> (fn, Deriv, tree) of the binder's functions
+    so_helpers = []      # SomethingOfOtherFile constructions in functions that see no ExportNamedSpecifier themselves
     for f in sorted(befile, key=lambda x: x.id):
         tree = F.hir[f.id]
         D = Deriv(tree)
         D.tag_fields(tree, "ExportNamedSpecifier", ("orig", "exported"))
+        be_derivs[f.id] = (f, D, tree)
         # one level of private helpers: a call result carries the tags of its arguments (Deriv.roots/tags follow
         # every local mentioned in the initialiser, call arguments included)
         for n in walk(tree["body"]):
@@ -379,8 +382,33 @@ def run(cx, rep):
                 ue_all.append((f, D, n))
             # (re-exports built from export specifiers; the resolution of unresolved exports against imports builds the
             # same variant from an ImportReference and is covered by the parse_and_bind clauses below)
-            if n["k"] == "Struct" and (n.get("def") or "").endswith("SymbolExport::SomethingOfOtherFile") and getattr(D, "tagged", {}):
-                so_all.append((f, D, n, tree))
+            if n["k"] == "Struct" and (n.get("def") or "").endswith("SymbolExport::SomethingOfOtherFile"):
+                if getattr(D, "tagged", {}):
+                    so_all.append((f, D.tags, n, tree))
+                else:
+                    so_helpers.append((f, D, n, tree))
+    # the construction moved into a helper that is handed the names (benign b100: `reexport_named(orig, exported_as,
+    # src)`, called from the loop over the specifiers): an expression of the helper carries the specifier fields of the
+    # arguments that the callers in the binder's file pass for the parameters it derives from.  A helper none of whose
+    # callers passes anything of an export specifier is not a re-export site (the resolution of unresolved exports).
+    for f, D, n, tree in so_helpers:
+        hsites = []       # (Deriv of the caller, arguments) per call of the helper from a function that sees a specifier
+        for g, Dg, tg_ in be_derivs.values():
+            if not getattr(Dg, "tagged", {}):
+                continue
+            for c2 in walk(tg_["body"]):
+                if c2["k"] in ("Call", "MethodCall") and F._callee_gid(g.crate, (c2.get("callee") if c2["k"] == "Call" else (c2.get("resolved") or c2.get("callee"))) or "") == f.id:
+                    hsites.append((Dg, ([c2["recv"]] if c2["k"] == "MethodCall" else []) + list(c2.get("args") or [])))
+
+        def via_callers(expr, D=D, tree=tree, hsites=hsites):
+            out = set()
+            for i in D.param_roots(tree, expr):
+                for Dg, a in hsites:
+                    if i < len(a):
+                        out |= Dg.tags(a[i])
+            return out
+        if any(Dg.tags(x) for Dg, a in hsites for x in a):
+            so_all.append((f, via_callers, n, tree))
     rep.ob("C09.1", "unresolved-export/site", len(ue_all) == 1, "expected one UnresolvedExport construction in the export binder (found %d)" % len(ue_all), befile[0].loc() if befile else None)
     for f, D, st in ue_all:
         tn = D.tags(struct_field(st, "name"))
@@ -391,15 +419,15 @@ def run(cx, rep):
         rep.ob("C09.1", "unresolved-export/renamed-is-exported", "exported" in tr,
                "`export {A as B}`: UnresolvedExport.renamed must derive from the exported name B (derives from specifier fields %s)" % sorted(tr), "%s:%s" % (f.file, st["line"]))
     rep.ob("C09.1", "reexport-from/site", len(so_all) == 1, "expected one SomethingOfOtherFile construction in the export binder (found %d)" % len(so_all), befile[0].loc() if befile else None)
-    for f, D, st, tree in so_all:
-        ts_ = D.tags(struct_field(st, "something"))
+    for f, tags_of, st, tree in so_all:
+        ts_ = tags_of(struct_field(st, "something"))
         rep.ob("C09.1", "reexport-from/something-is-orig", "orig" in ts_ and "exported" not in ts_,
                "`export {A as B} from`: the name looked up in the other module must be A (derives from specifier fields %s)" % sorted(ts_), "%s:%s" % (f.file, st["line"]))
         # the key of the enclosing registration derives from the exported name
         for c in walk(tree["body"]):
             rg = registration(f.crate, c)
             if rg is not None and any(x is st for x in walk(rg[1])):
-                tk = D.tags(rg[0])
+                tk = tags_of(rg[0])
                 rep.ob("C09.1", "reexport-from/key-is-exported", "exported" in tk, "`export {A as B} from`: the export must be registered under B (derives from specifier fields %s)" % sorted(tk), "%s:%s" % (f.file, c["line"]))
     pb = [f for f in F.fns.values() if f.name == "parse_and_bind" and f.crate != WASM]
     if len(pb) != 1:
